@@ -172,10 +172,12 @@ def normalize_piece_length(piece_length: int) -> int:
         Piece length is improper value.
     """
     if isinstance(piece_length, str):
-        if piece_length.isnumeric():
+        try:
+            if not piece_length.isnumeric():
+                raise ValueError(piece_length)
             piece_length = int(piece_length)
-        else:
-            raise PieceLengthValueError(piece_length)
+        except ValueError as err:
+            raise PieceLengthValueError(piece_length) from err
 
     if piece_length > (1 << 14):
         if piece_length & (piece_length - 1) == 0:
